@@ -32,14 +32,14 @@ RULE = ("cases = (dataset, sub-query conditions c1/c2, wrapper entity|set_of, co
         "reference must return the same row set. Non-trivial = both sub-conditions are non-constant on the data and the "
         "composed result differs from each component's result (condition position) / the sub-query restricts the operand "
         "(other positions); distinct = canonical JSON.")
-BUDGET = {"quick": (4, 350), "thorough": (16, 3500)}
+BUDGET = {"quick": (8, 400), "thorough": (16, 3500)}
 ASSUMPTIONS = ["a `the` sub-query used inside another query has exactly one solution",
                "only == against a sub-query operand is asserted (the existential reading of other operators is not stated)"]
 
 
 def _cfg():
     avoid = open_features()
-    return Cfg(nvars=(1, 2), pool=(2, 5), dom=(1, 3), profile="falsy" if "falsy_values" not in avoid else "clean",
+    return Cfg(nvars=(1, 2), pool=(3, 6), dom=(1, 3), profile="falsy" if "falsy_values" not in avoid else "clean",
                max_depth=1, noise=False, force_relate=True, allow_nested_not="not_under_not" not in avoid)
 
 
@@ -60,7 +60,7 @@ def _case(draw, tier):
     n = len(recs)
     nv = draw(st.sampled_from([1, 2])) if position == "condition" else 2
     ctx = Ctx(cfg, recs, nv)
-    doms = [list(draw(st.permutations(list(range(n))))[:draw(st.integers(1, min(3, n)))]) for _ in range(nv)]
+    doms = [list(draw(st.permutations(list(range(n))))[:draw(st.sampled_from([1, 2, 3, 3, 4]))]) for _ in range(nv)]
     vars_ = [{"dom": v, "decl": draw(st.sampled_from(["let", "from"])), "type": "Ent"} for v in range(nv)]
     case = {"ents": recs, "doms": doms, "vars": vars_, "dom_kind": "list", "position": position, "quant": "an",
             "split_top": False}
@@ -227,20 +227,25 @@ def check(case) -> Outcome:
                     else:
                         q = an(set_of([V[0], V[1]], build_cond(case["c0"], V), build_cond(case["c1"], V)))
                 return [(r[V[0]], r[V[1]]) for r in q.evaluate()]
+    from entity_query_language.cache_data import enable_caching, disable_caching
     results = {}
-    for name, v in variants.items():
+    for name, v in list(variants.items()) + [(n + "_uncached", v) for n, v in variants.items()]:
         try:
-            results[name] = run(v)
+            (disable_caching if name.endswith("_uncached") else enable_caching)()
+            try:
+                results[name] = run(v)
+            finally:
+                enable_caching()
         except _Reevaluation as e:
             return fail("reevaluation_" + name, f"{name} query: {e}; expected {show_rows(expected)}", nontrivial=nontrivial,
                         classes=classes, features=feats + [name])
         except Exception as e:
             return fail("exception_" + name, f"{name} query: {type(e).__name__}: {e}; expected {show_rows(expected)}",
                         nontrivial=nontrivial, classes=classes, features=feats + [name])
-    for name in ("inlined", "composed"):
+    for name in ("inlined", "composed", "inlined_uncached", "composed_uncached"):
         bad = compare_sets(expected, results[name], False)
         if bad:
-            other = "composed" if name == "inlined" else "inlined"
+            other = "composed" if name.startswith("inlined") else "inlined"
             return fail(name + "_" + bad[0], f"{name} query: {bad[1]}; the {other} query gives {show_rows(results[other])}",
                         nontrivial=nontrivial, classes=classes, features=feats + [name])
     return Outcome(True, nontrivial=nontrivial, classes=classes, features=feats)
